@@ -1,5 +1,4 @@
-\* quick exhaustive config: 2 snaps (both installed, no aliases), 2 alias names, 2 apps (declarations name c1),
-\* every request kind, a fault (on entry / at the 1st or 2nd backend alias operation) at any task, 3 requests
+\* quick exhaustive config: 2 snaps (both installed, no aliases), 2 alias names, 2 apps (declarations name c1), every request kind and install flag, a fault (on entry / at the first backend alias operation) at any task, histories of 2 requests (declaration changes are free)
 CONSTANTS
   Snaps <- MCSnaps
   Names <- MCNames2
@@ -10,7 +9,8 @@ CONSTANTS
   FaultModes <- MCFaultsAtomic
   InitInst <- MCBoth
   RAAUX = FALSE
-  MaxOps = 3
+  LateRemoveFaults = FALSE
+  MaxOps = 2
 INIT Init
 NEXT Next
 CHECK_DEADLOCK FALSE
